@@ -468,10 +468,20 @@ def generate(repo, failures=None):
     out = ['(* GENERATED by harness/vh/translate.py from the working tree of /repo -- do not edit. *)',
            'From Coq Require Import ZArith List String.', 'Import ListNotations.', 'Open Scope Z_scope.', '']
     from vh import translate_items
+    import re
+    emitted = {}
     for it in ITEMS + translate_items.ITEMS:
         part = []
         try:
             it(repo, part)
+            for i, line in enumerate(part):
+                # two items (of two properties) may pin the same constant under the same name: the second, IDENTICAL,
+                # definition is left out (Coq rejects a redefinition); a different text is kept and fails in coqc
+                m = re.match(r'Definition\s+([\w\']+)', line) if isinstance(line, str) else None
+                if m and emitted.get(m.group(1), (None, None))[0] == line:
+                    part[i] = '(* %s: the same definition was already emitted by %s *)' % (m.group(1), emitted[m.group(1)][1])
+                elif m:
+                    emitted.setdefault(m.group(1), (line, it.__name__))
             out += part
         except TranslateError as e:
             if failures is None:
